@@ -70,7 +70,8 @@ fn build_table(gnu: bool, enc: Enc, u: &[Vec<u8>], subset: u64, symoffset: usize
         let mut names: Vec<Vec<u8>> = vec![vec![]];
         names.extend(members);
         let (strtab, offs) = build_strtab(&names);
-        Built { sect: build_sysv(enc.order, &names, nbucket), symtab: build_symtab(enc, &offs), strtab, names, first_hashed: 1 }
+        // the SysV `shift` parameter selects how the chains are threaded (ascending / descending / mixed)
+        Built { sect: build_sysv_threaded(enc.order, &names, nbucket, (shift % 3) as u8), symtab: build_symtab(enc, &offs), strtab, names, first_hashed: 1 }
     }
 }
 
@@ -162,7 +163,7 @@ impl Complete {
         if self.gnu {
             [1 << self.usize_, 4, self.nbuckets as u64, 3, self.blooms.len() as u64, self.shifts.len() as u64]
         } else {
-            [1 << self.usize_, 4, self.nbuckets as u64, 1, 1, 1]
+            [1 << self.usize_, 4, self.nbuckets as u64, 1, 1, self.shifts.len() as u64]
         }
     }
 }
@@ -172,7 +173,7 @@ impl Space for Complete {
         if self.gnu {
             format!("GnuHashTable::find on reference-built .gnu.hash: all {} subsets of a {}-name universe (djb2 collision pair, bit-0 neighbours, empty, non-UTF-8, prefixes) x symoffset 1..3 (unhashed prefix reuses names) x nbucket 1..={} x bloom words {:?} x shift {:?} x 4 encodings; every universe name and 8 absent names looked up", 1u64 << self.usize_, self.usize_, self.nbuckets, self.blooms, self.shifts)
         } else {
-            format!("SysVHashTable::find on reference-built .hash: all {} subsets of a {}-name universe (elf_hash collision pair, >= 0x80 bytes, prefixes, long name) x nbucket 1..={} x 4 encodings; every universe name and 8 absent names looked up", 1u64 << self.usize_, self.usize_, self.nbuckets)
+            format!("SysVHashTable::find on reference-built .hash: all {} subsets of a {}-name universe (elf_hash collision pair, >= 0x80 bytes, prefixes, long name) x nbucket 1..={} x chain threading {{ascending, descending, mixed}} x 4 encodings; every universe name and absent names looked up", 1u64 << self.usize_, self.usize_, self.nbuckets)
         }
     }
     fn size(&self) -> u64 {
@@ -683,7 +684,7 @@ pub fn build_c12(tier: Tier) -> CheckDef {
         rule: "small-scope exhaustive enumeration of well-formed .hash tables produced by a reference builder (every subset of the name universe x nbucket x encoding) with linear-scan ground truth for every looked-up name; soundness on every single-word deviation and (in C01/C16) on all short word strings / all functional chain graphs; sysv_hash against the gABI elf_hash reference on complete string sets. non-trivial = table in which at least one lookup hits".into(),
         assumptions: vec!["completeness is demanded only of builder-made tables; samples get soundness + agreement with the reference algorithm".into()],
         spaces: vec![
-            Box::new(Complete { gnu: false, usize_: tier.pick(9, 12), shifts: vec![0], nbuckets: tier.pick(4, 8), blooms: vec![1] }),
+            Box::new(Complete { gnu: false, usize_: tier.pick(9, 12), shifts: vec![0, 1, 2], nbuckets: tier.pick(4, 8), blooms: vec![1] }),
             Box::new(Deviated { gnu: false }),
             Box::new(Mismatched { gnu: false }),
             Box::new(HashFn { gnu: false, long: tier == Tier::Thorough }),
